@@ -101,6 +101,31 @@ NextDemands(e) ==
     <<"C14.nextpatch", NextOne(e.patch, v, v.patch, [major |-> v.major, minor |-> v.minor, patch |-> Inc(v.patch), pre |-> <<>>, build |-> <<>>])>>
   >>
 
+\* string helpers on raw texts: error exactly when either text is invalid for that helper;
+\* otherwise the comparison of the parsed values
+HTextDemands(e) ==
+  LET p(t, forms) == ParseSemRef(t, forms, sMax)
+      V == {FormVersion}  T == {FormTag}  A == {FormVersion, FormTag}
+      both(f) == IsOk(p(e.a, f)) /\ IsOk(p(e.b, f))
+      cmp(f) == VerCmp11(p(e.a, f).v, p(e.b, f).v)
+      dep(f) == VerDeparture(p(e.a, f).v, p(e.b, f).v)
+      okc(h, f) == IF both(f) THEN h[1] = 1 /\ h[2] \in {-1, 0, 1} ELSE h = <<0, 0>>
+      okl(x, f) == IF both(f) THEN x.ok /\ VerOf(x.v) \in {p(e.a, f).v, p(e.b, f).v} ELSE ~x.ok
+  IN <<
+    <<"C18.nopanic",  ~e.panic>>,
+    <<"C14.text_v",   okc(e.hv, V)>>,
+    <<"C14.text_t",   okc(e.ht, T)>>,
+    <<"C14.text_a",   okc(e.ha, A)>>,
+    <<"C14.ltext_v",  okl(e.lv, V)>>,
+    <<"C14.ltext_t",  okl(e.lt, T)>>,
+    <<"C14.ltext_a",  okl(e.la, A)>>,
+    <<"C06.text",     /\ (both(V) /\ ~dep(V)) => e.hv[2] = cmp(V)
+                      /\ (both(T) /\ ~dep(T)) => e.ht[2] = cmp(T)
+                      /\ (both(A) /\ ~dep(A)) => e.ha[2] = cmp(A)>>,
+    <<"C06.ltext",    (both(A) /\ ~dep(A) /\ cmp(A) # 0) =>
+                         VerOf(e.la.v) = (IF cmp(A) = 1 THEN p(e.a, A).v ELSE p(e.b, A).v)>>
+  >>
+
 SemStep(e) ==
   CASE e.op = "sem.set" -> SemSetMax(e.max) /\ Note(<<>>)
     [] e.op = "sem.univ" -> SemSetUniverse(e.u)
@@ -110,6 +135,7 @@ SemStep(e) ==
     [] e.op = "sem.row" -> UNCHANGED svars /\ Note(RowDemands(e))
     [] e.op = "sem.cmp" -> SemCompare(VerOf(e.a), VerOf(e.b)) /\ Note(CmpDemands2(e))
     [] e.op = "sem.next" -> UNCHANGED svars /\ Note(NextDemands(e))
+    [] e.op = "sem.htext" -> UNCHANGED svars /\ Note(HTextDemands(e))
 
-IsSemOp(e) == e.op \in {"sem.set", "sem.univ", "sem.parse", "sem.valid", "sem.row", "sem.cmp", "sem.next"}
+IsSemOp(e) == e.op \in {"sem.set", "sem.univ", "sem.parse", "sem.valid", "sem.row", "sem.cmp", "sem.next", "sem.htext"}
 =============================================================================
